@@ -210,7 +210,7 @@ class Gen:
             self.classes.add("dom-edge")
         if w["lin"]:
             self.classes.add("linear-wire")
-        return w["ref"]
+        return dict(w["ref"])
 
     def find(self, r: Region, t, taken):
         """An available wire of type t (not already taken for this node if linear)."""
@@ -1062,4 +1062,5 @@ def programs(draw, size=12, max_depth=2, roots=("module", "dfg", "function", "cf
         reg = g.new_region("D", "loop", None, ROOT, just + rest, rid=ROOT)
         reg.extra.update(just=just, rest=rest)
     ok = g.run(root)
-    return {"root": root, "events": g.events, "classes": sorted(g.classes), "complete": ok}
+    # plain JSON tree (no shared sub-objects), so that cases can be edited and replayed faithfully
+    return json.loads(json.dumps({"root": root, "events": g.events, "classes": sorted(g.classes), "complete": ok}))
